@@ -40,7 +40,29 @@ class Tracked
 public:
     Tracked() : m_id(0), m_heap(new uint64_t(0)) { reg(); }
     explicit Tracked(uint64_t id) : m_id(id), m_heap(new uint64_t(id)) { reg(); }
-    Tracked(const Tracked& o) : m_id(o.checked_id()), m_heap(new uint64_t(o.m_id)) { reg(); }
+    // The copy reads the source twice with an optional harness-installed pause in between (copy_hook; idle unless the
+    // concurrent driver installs it).  Under a library that copies values only while it holds its lock the pause is
+    // invisible; one that copies a stored value after unlocking, or walks a range without the lock, gets its window widened:
+    // the second read then sees a changed or freed payload (ASan) or the caller a torn result (linearizability checker).
+    Tracked(const Tracked& o) : m_id(o.checked_id()), m_heap(nullptr)
+    {
+        if (auto h = copy_hook().load(std::memory_order_relaxed))
+            h();
+        m_heap = new uint64_t(o.m_heap ? *o.m_heap : o.m_id);
+        if (*m_heap != m_id)
+        {
+            auto&                       r = TrackedRegistry::get();
+            std::lock_guard<std::mutex> g(r.m);
+            r.error("source of a copy changed while it was being copied");
+            m_id = *m_heap;
+        }
+        reg();
+    }
+    static std::atomic<void (*)()>& copy_hook()
+    {
+        static std::atomic<void (*)()> h{nullptr};
+        return h;
+    }
     Tracked(Tracked&& o) noexcept : m_id(o.checked_id()), m_heap(o.m_heap)
     {
         o.m_heap = nullptr; // moved-from: valid but payload-less
